@@ -99,6 +99,8 @@ func Lib() *ty.Env {
 	uds := add("UDS", "", ty.Sl(b("int")), false) // 49
 	e.Decls[uds].Methods = "Dv"
 	add("UDW", "", ty.St(f("M", ty.N(48)), f("S", ty.N(49)), f("P", ty.P(ty.N(48))), f("L", ty.Sl(ty.N(48))), f("V", ty.M(b("string"), ty.N(49))), f("Q", ty.P(ty.N(49)))), false) // 50
+	// arrays of arrays whose elements are not assignable: nested loops over one array
+	add("AA", "", ty.St(f("G", ty.Ar(3, ty.Ar(2, ty.P(b("int"))))), f("H", ty.Ar(2, ty.Ar(3, ty.Sl(b("string")))))), false) // 51
 	return e
 }
 
@@ -238,6 +240,8 @@ func NewCorpusEnv(env *ty.Env, rng *rand.Rand, thorough bool, n2, extra int) *Co
 		ty.P(ty.St(ty.F("U", ty.B("uint64")), ty.F("V", ty.B("uint8")), ty.F("W", ty.M(ty.B("uint64"), ty.B("bool"))))),
 		ty.M(ty.B("bool"), ty.Sl(ty.B("string"))),
 		ty.P(ty.N(47)), ty.Sl(ty.N(46)), ty.P(ty.N(50)),
+		// arrays of arrays whose elements are not assignable (nested loops over one array)
+		ty.P(ty.N(51)),
 	} {
 		add(t)
 	}
